@@ -20,9 +20,11 @@ vars == <<phase, m, kind, dmg, verdict>>
 
 PresentKinds(D) == {Kinds[i] : i \in {j \in 1 .. Len(Kinds) : Present(D[Kinds[j]])}}
 
-(* everything about the intact instances, computed once *)
+(* everything about the intact instances.  Intact is a constant bound in the configuration to the operator
+   AllIntact of the root module (TLC evaluates zero-arity constant definitions once only when they are in the root
+   module; evaluating this one takes as long as a few hundred transitions) *)
 IntactOf(i) == LET D == DirOf(Models[i]) IN [dir |-> D, P |-> ParseDir(D, FeatCfg(D.featparams))]
-Intact == <<IntactOf(1), IntactOf(2), IntactOf(3), IntactOf(4)>>
+CONSTANT Intact
 FldsOf(i, k) == IF k = "featparams" THEN <<Fld("text", 0, "data", Intact[i].dir.featparams.len)>> ELSE Intact[i].P[k].flds
 NVariants(i, k) == Len(Variants(Models[i], k))
 
